@@ -27,18 +27,21 @@ impl Mutation {
         let mut run = String::new();
         let flush = |run: &mut String, out: &mut String| {
             if run.is_empty() { return }
-            let is_hexish = run.len() >= 6
-                && run.chars().all(|c| c.is_ascii_hexdigit() || c == '-');
             let is_num = run.chars().all(|c| c.is_ascii_digit());
-            if is_hexish || is_num { out.push('#') } else { out.push_str(run) }
+            let is_hexish = run.len() >= 8
+                && run.chars().all(|c| c.is_ascii_hexdigit())
+                && run.chars().any(|c| c.is_ascii_digit());
+            if is_hexish || is_num {
+                if !out.ends_with('#') { out.push('#') }
+            } else { out.push_str(run) }
             run.clear();
         };
         for c in place.chars() {
-            if c.is_ascii_alphanumeric() || c == '-' {
+            if c.is_ascii_alphanumeric() {
                 run.push(c)
             } else {
                 flush(&mut run, &mut out);
-                out.push(c);
+                if !(c == '-' && out.ends_with('#')) { out.push(c); }
             }
         }
         flush(&mut run, &mut out);
